@@ -174,7 +174,12 @@ def subs(tier):
         "iseed": st.integers(0, 2 ** 20),
         "np_modes": st.sampled_from([False, False, False, True]),     # modes as produced by numpy.arange
     })
+    case_nested = st.fixed_dictionaries({
+        "prog": gen.nested_group_tree(),
+        "iseed": st.integers(0, 2 ** 20),
+    })
     return [
+        Sub("nested-groups", run_tree, strategy=case_nested, examples=60 if q else 2000),
         Sub("addition-trees", run_tree, strategy=case_adds, examples=150 if q else 4000),
         Sub("trees", run_tree, strategy=case, examples=100 if q else 2500),
         Sub("trees-small", run_tree, strategy=case_small, examples=100 if q else 2500),
